@@ -423,6 +423,13 @@ impl<C: Config> Engine<C> {
         // register the dependency for the sake of detecting cycles
         let undo_register = self.register_callee(caller, &query.id);
 
+        #[cfg(feature = "verif")]
+        qbice_storage::verif::task_point(
+            "qf_after_register",
+            qbice_storage::verif::PointKind::Preempt,
+        )
+        .await;
+
         let mut status = QueryStatus::UpToDate;
 
         // pulling the value
@@ -442,6 +449,13 @@ impl<C: Config> Engine<C> {
                     return Err(err);
                 }
             }
+
+            #[cfg(feature = "verif")]
+            qbice_storage::verif::task_point(
+                "qf_at_snapshot",
+                qbice_storage::verif::PointKind::Await,
+            )
+            .await;
 
             // acquire read snapshot
             let mut snapshot =
@@ -463,6 +477,13 @@ impl<C: Config> Engine<C> {
                 }
             };
 
+            #[cfg(feature = "verif")]
+            qbice_storage::verif::task_point(
+                "qf_after_fast_miss",
+                qbice_storage::verif::PointKind::Preempt,
+            )
+            .await;
+
             // if the caller is responsible for repairing TFC queries, do it
             // but release the lock first to avoid deadlock when backward
             // projection is needed.
@@ -483,6 +504,13 @@ impl<C: Config> Engine<C> {
                     .get_read_snapshot::<Q>(query.id.compact_hash_128())
                     .await;
             }
+
+            #[cfg(feature = "verif")]
+            qbice_storage::verif::task_point(
+                "qf_at_write_guard",
+                qbice_storage::verif::PointKind::Await,
+            )
+            .await;
 
             // now the `query` state is held in computing state.
             // if `guard` is dropped without defusing, the state will
